@@ -46,6 +46,10 @@ type Case struct {
 	YieldSeed int        `json:"yield_seed"`
 	YieldMode int        `json:"yield_mode"`
 	YieldDens int        `json:"yield_density"`
+	// Transient end-of-file while the source pauses (needs a non-zero tolerance in the configuration).
+	EOFTolMs  int   `json:"eof_tolerance_ms"` // 0 = the reader never reports EOF before the end
+	EOFAt     []int `json:"eof_at_calls"`     // reader calls that report a single EOF instead of data
+	LongPause int   `json:"long_pause_at"`    // reader call that first sleeps longer than the tolerance (0 = none)
 }
 
 type scriptReader struct {
@@ -56,6 +60,9 @@ type scriptReader struct {
 	pauseEach int
 	pauseKind int
 	eofWith   bool
+	eofAt     map[int]bool
+	longPause int
+	tol       time.Duration
 }
 
 func (r *scriptReader) Read(p []byte) (int, error) {
@@ -69,6 +76,12 @@ func (r *scriptReader) Read(p []byte) (int, error) {
 	}
 	if r.pos >= len(r.data) {
 		return 0, io.EOF
+	}
+	if r.eofAt[r.call] {
+		return 0, io.EOF // transient: the next call supplies data again
+	}
+	if r.longPause > 0 && r.call == r.longPause {
+		time.Sleep(r.tol + 10*time.Millisecond)
 	}
 	n := len(p)
 	if len(r.chunks) > 0 {
@@ -165,12 +178,26 @@ func check(c Case, o *stats.Obs) error {
 		}(i, cs)
 	}
 	rd := &scriptReader{data: input, chunks: c.Chunks, pauseEach: c.PauseEach, pauseKind: c.PauseKind, eofWith: c.EOFWith}
+	cfg := &jsonconfig.Config{}
+	if c.EOFTolMs > 0 {
+		cfg.TimeoutOnEOFMilliSeconds = uint(c.EOFTolMs)
+		rd.tol = time.Duration(c.EOFTolMs) * time.Millisecond
+		rd.eofAt = map[int]bool{}
+		prev := -5
+		for _, k := range c.EOFAt {
+			if k > prev+1 { // single interruptions only: never two in a row
+				rd.eofAt[k] = true
+				prev = k
+			}
+		}
+		rd.longPause = c.LongPause
+	}
 	bs := c.BufSize
 	if bs < 16 {
 		bs = 16
 	}
 	br := bufio.NewReaderSize(rd, bs)
-	core := appcore.New(&jsonconfig.Config{}, chans)
+	core := appcore.New(cfg, chans)
 	ret := make(chan int, 1)
 	go func() { ret <- core.HandleMessagesUntilEOF(drive.StartTime, br) }()
 	var rc int
@@ -240,6 +267,9 @@ func check(c Case, o *stats.Obs) error {
 	if c.Procs > 0 {
 		o.Class(fmt.Sprintf("gomaxprocs-%d", c.Procs))
 	}
+	if c.EOFTolMs > 0 {
+		o.Class("transient-eof")
+	}
 	return nil
 }
 
@@ -274,6 +304,21 @@ func gen1(t *rapid.T) Case {
 	c.YieldSeed = rapid.IntRange(0, 1<<30).Draw(t, "yieldSeed")
 	c.YieldMode = rapid.IntRange(0, 2).Draw(t, "yieldMode")
 	c.YieldDens = rapid.SampledFrom([]int{3, 16, 64}).Draw(t, "yieldDensity")
+	if rapid.IntRange(0, 7).Draw(t, "transientEOF") == 0 {
+		c.EOFTolMs = 30
+		n := rapid.IntRange(1, 3).Draw(t, "nEOF")
+		k := 1
+		for i := 0; i < n; i++ {
+			k += rapid.IntRange(2, 6).Draw(t, "eofGap")
+			c.EOFAt = append(c.EOFAt, k)
+		}
+		if n >= 2 && rapid.Bool().Draw(t, "longPause") {
+			c.LongPause = c.EOFAt[0] + 1
+		}
+		if len(c.Chunks) == 0 {
+			c.Chunks = []int{rapid.SampledFrom([]int{3, 16, 40}).Draw(t, "eofChunk")}
+		}
+	}
 	return c
 }
 
